@@ -12,6 +12,8 @@ CONSTANTS
   FollowRetries = TRUE
   FollowAppend = TRUE
   ResyncChecksRound = TRUE
+  ResyncDeletesFirst = FALSE
+  Aborts = FALSE
   PinsOperatorHash = TRUE
   MaxAgg = 1
   QCap = 2
